@@ -3,6 +3,7 @@ package checks
 // C03 — operation results and effects follow RFC 7047 §5.1-5.2.
 
 import (
+	"regexp"
 	"fmt"
 	"sort"
 	"strings"
@@ -15,6 +16,9 @@ import (
 	"verif/mc/schemas"
 	"verif/mc/sys"
 )
+
+var addrRe = regexp.MustCompile(`0x[0-9a-f]+|\[[^\]]*\]`)
+var uuidRe = regexp.MustCompile(`[0-9a-f]{8}-[0-9a-f]{4}-[0-9a-f]{4}-[0-9a-f]{4}-[0-9a-f]{12}`)
 
 func init() { register("C03", "model_checking", runC03) }
 
@@ -255,6 +259,31 @@ func c03Probes(ref *rm.Schema, level int) []dbx.Txn {
 		rm.Op{Op: "select", Table: "T", Where: []rm.Cond{{Col: "s", Fn: "==", Val: str("newer")}}},
 		rm.Op{Op: "mutate", Table: "T", Where: []rm.Cond{{Col: "s", Fn: "==", Val: str("newer")}}, Muts: []rm.Mut{{Col: "ss", Mutator: "insert", Val: str("q")}}},
 		rm.Op{Op: "select", Table: "T", Where: whereUUID(tU[2])})
+	// a later operation selecting with a condition that an earlier operation of the same transaction made false / true
+	bT := []rm.Cond{{Col: "b", Fn: "==", Val: rm.SetOf(rm.B(true))}}
+	bF := []rm.Cond{{Col: "b", Fn: "==", Val: rm.SetOf(rm.B(false))}}
+	add("chain.condition-no-longer-true", "update where b==true b:=false; select where b==true; select where b==false; mutate where b==false i+=100; select all",
+		rm.Op{Op: "update", Table: "T", Where: bT, Row: rm.Row{"b": rm.SetOf(rm.B(false))}},
+		rm.Op{Op: "select", Table: "T", Where: bT},
+		rm.Op{Op: "select", Table: "T", Where: bF},
+		rm.Op{Op: "mutate", Table: "T", Where: bF, Muts: []rm.Mut{{Col: "i", Mutator: "+=", Val: one(100)}}},
+		rm.Op{Op: "select", Table: "T"})
+	add("chain.condition-no-longer-true", "update where b==false s:=moved,b:=true; delete where b==false; select all",
+		rm.Op{Op: "update", Table: "T", Where: bF, Row: rm.Row{"b": rm.SetOf(rm.B(true)), "s": str("moved")}},
+		rm.Op{Op: "delete", Table: "T", Where: bF},
+		rm.Op{Op: "select", Table: "T"})
+	add("chain.deleted-then-selected", "delete where b==true; select where b==true; select all; insert t3 b=true; select where b==true",
+		rm.Op{Op: "delete", Table: "T", Where: bT},
+		rm.Op{Op: "select", Table: "T", Where: bT},
+		rm.Op{Op: "select", Table: "T"},
+		opInsert("T", tU[2], rm.Row{"b": rm.SetOf(rm.B(true)), "i": one(77)}),
+		rm.Op{Op: "select", Table: "T", Where: bT})
+	add("chain.uuid-reused", "insert t3; delete t3; insert t3 again (other values); select t3; select all",
+		opInsert("T", tU[2], rm.Row{"i": one(71), "s": str("first")}),
+		opDelete("T", tU[2]),
+		opInsert("T", tU[2], rm.Row{"i": one(72), "s": str("second")}),
+		rm.Op{Op: "select", Table: "T", Where: whereUUID(tU[2])},
+		rm.Op{Op: "select", Table: "T"})
 	add("chain", "delete t1; insert t1 again; select t1", opDelete("T", tU[0]), opInsert("T", tU[0], rm.Row{"s": str("reborn")}), rm.Op{Op: "select", Table: "T", Where: whereUUID(tU[0])})
 	add("chain", "delete all; select all; insert t2; select all", rm.Op{Op: "delete", Table: "T"}, rm.Op{Op: "select", Table: "T"}, opInsert("T", tU[1], rm.Row{"i": one(1)}), rm.Op{Op: "select", Table: "T"})
 	// whole-row updates, as a client writing a model back produces them: every column is named, all but one with the value
@@ -307,6 +336,19 @@ func c03Probes(ref *rm.Schema, level int) []dbx.Txn {
 			rm.Op{Op: "wait", Table: "T", Until: until, Columns: []string{"s"}, Rows: []rm.Row{{"s": str("a")}}})
 		add("wait.multi-row", fmt.Sprintf("wait all rows s %s {a,b}", until),
 			rm.Op{Op: "wait", Table: "T", Until: until, Columns: []string{"s"}, Rows: []rm.Row{{"s": str("a")}, {"s": str("b")}}})
+		// class (iv): rows and expectations compared as SETS of projected rows: several selected rows equal on the waited column
+		// (boolean: two of the state rows always agree), duplicate expectation rows
+		bv := func(x bool) rm.Value { return rm.SetOf(rm.B(x)) }
+		for _, x := range []bool{true, false} {
+			add("wait.set-semantics", fmt.Sprintf("wait all rows b %s {%v}", until, x),
+				rm.Op{Op: "wait", Table: "T", Until: until, Columns: []string{"b"}, Rows: []rm.Row{{"b": bv(x)}}})
+			add("wait.set-semantics", fmt.Sprintf("wait all rows b %s {%v,%v} (duplicate expectation)", until, x, x),
+				rm.Op{Op: "wait", Table: "T", Until: until, Columns: []string{"b"}, Rows: []rm.Row{{"b": bv(x)}, {"b": bv(x)}}})
+		}
+		add("wait.set-semantics", fmt.Sprintf("wait all rows b %s {true,false}", until),
+			rm.Op{Op: "wait", Table: "T", Until: until, Columns: []string{"b"}, Rows: []rm.Row{{"b": bv(true)}, {"b": bv(false)}}})
+		add("wait.set-semantics", fmt.Sprintf("wait all rows e %s {a}", until),
+			rm.Op{Op: "wait", Table: "T", Until: until, Columns: []string{"e"}, Rows: []rm.Row{{"e": str("a")}}})
 		add("wait.no-row", fmt.Sprintf("wait t3 (absent) s %s {}", until),
 			rm.Op{Op: "wait", Table: "T", Where: whereUUID(tU[2]), Until: until, Columns: []string{"s"}, Rows: nil})
 	}
@@ -420,7 +462,7 @@ func runC03(r *ev.Run) {
 		r.SetDeadline(150 * 1e9)
 	}
 	r.Set("rule", "state = table contents built from universe rows (every column type populated); transition = one transaction generated from templates (every condition function x column x argument, every mutator x column x argument, update/insert of every column value, multi-condition, multi-mutation, read-your-writes chains, select with columns, immutable columns, zero-timeout waits); per-operation results and resulting contents are compared with the reference model; non-trivial = accepted transaction whose results are not all empty/zero")
-	r.Assume("only transactions the implementation accepts are compared (the property is about accepted transactions); 'implementation rejects, reference accepts' is counted per class")
+	r.Assume("a transaction the reference accepts must be accepted, except mutations libovsdb refuses at validation (arithmetic on sets/optionals, insert/delete on 0..1 columns: unimplemented, counted per class)")
 	r.Assume("arguments respect the column types; constraints libovsdb does not implement (enum membership, ranges, max cardinality) stay outside the alphabet")
 	dbs := schemas.MustBuild(c03Schema, nil)
 	ref := rm.FromOvsdb(dbs.Schema)
@@ -442,8 +484,34 @@ func runC03(r *ev.Run) {
 			if model.Accepted() {
 				r.Add("impl_rejects_model_accepts", 1)
 				r.Distinct("impl_rejects_model_accepts_classes", class)
-				if class == "chain" {
-					r.Note(fmt.Sprintf("chain rejected by the implementation: %s: %s", histStr(e), ev.J(e.Res)))
+				errText := ""
+				for _, x := range e.Res {
+					if x.Error != "" && x.Error != "<null>" && errText == "" {
+						errText = x.Error + ": " + x.Details
+					}
+				}
+				if e.RPCErr != nil {
+					errText = "rpc: " + e.RPCErr.Error()
+				}
+				errText = addrRe.ReplaceAllString(errText, "0x..")
+				if len(errText) > 90 {
+					errText = errText[:90]
+				}
+				r.Distinct("impl_reject_errors", strings.Split(class, ".arg")[0]+" => "+uuidRe.ReplaceAllString(errText, "<uuid>"))
+				// tolerated: mutations libovsdb refuses at validation (arithmetic on sets and optionals, insert/delete on 0..1
+				// columns): features it does not implement, refused deterministically before anything is executed. Anything else the
+				// reference accepts must be accepted
+				if !strings.HasPrefix(class, "mutate.") {
+					kind := "error"
+					switch {
+					case strings.Contains(errText, "constraint violation"):
+						kind = "constraint-violation"
+					case strings.Contains(errText, "sequence of updates not supported"):
+						kind = "sequence-of-updates-not-supported"
+					case strings.Contains(errText, "already exists"), strings.Contains(errText, "failed warming"):
+						kind = "transaction-cache"
+					}
+					r.Violation("c03.rejected-but-reference-accepts."+class+"."+kind, fmt.Sprintf("%s: rejected (%s), but the reference accepts it", histStr(e), errText), mkCase("S-types", e, errText, ""))
 				}
 			}
 			return
@@ -504,6 +572,7 @@ func runC03(r *ev.Run) {
 	}
 	dbx.Explore(r, cfg)
 	r.Set("impl_rejects_model_accepts_class_list", r.DistinctKeys("impl_rejects_model_accepts_classes"))
+	r.Set("impl_reject_error_list", r.DistinctKeys("impl_reject_errors"))
 	r.Set("traces_validated_against_impl", r.Get("transitions"))
 	r.Set("distinct_nontrivial", r.DistinctCount("nontrivial"))
 	r.Set("evaluations", r.Get("transitions"))
